@@ -1,4 +1,5 @@
 import MJ.Proofs.Fuel
+import MJ.Proofs.FuelMachine
 /-!
 # C13 — fuel gives every render a fixed, exact success threshold
 
@@ -136,6 +137,205 @@ example :
     let B := max (thr a) (thr b)
     (runFuel B a).status = .done ∧ (runFuel B b).status = .done
     ∧ (total a = 0 ∨ total b = 0 ∨ (runFuel B (a ++ b ++ ["EmitRaw"])).status = .outOfFuel) := by decide
+
+/-! ## the interpreter loop: fuel does not steer the machine -/
+
+/-- what the limited run returns when it is not stopped by fuel: the unlimited result, with a
+    dispatch error `e` reported as the same error -/
+def sameResult {S E : Type} (r : Except E S) : Except (FErr E) S :=
+  match r with
+  | .ok s => .ok s
+  | .error e => .error (.other e)
+
+/-- NON-INTERFERENCE.  For every machine (arbitrary state, arbitrary fetch and dispatch functions
+    that do not receive the tracker), every start state whose unlimited run terminates (normally or
+    with an error `e` of the dispatch) and every budget `B : u64`: the limited run terminates within
+    the same number of steps, and
+    * the instructions it dispatches and the states it goes through are a prefix of those of the
+      unlimited run — all of them iff `B ≥ thr (unlimited trace)`;
+    * at or above the threshold it returns exactly what the unlimited run returns (the same final
+      state, or the SAME error) and reports `total` consumed;
+    * below the threshold it returns out-of-fuel — never another state, never another error;
+    * the levels add up to the budget in every case. -/
+theorem fuel_does_not_steer {S E : Type} (m : Machine S E) (n : Nat) (s : S) (u : URun S E)
+    (h : m.run n s = some u) (B : Nat) (hB : B < u64Bound) :
+    ∃ f, m.runFuel n (Tracker.new B) s = some f ∧
+      f.trace <+: u.trace ∧ f.states = u.states.take f.trace.length ∧ f.states <+: u.states ∧
+      ((f.trace = u.trace ∧ f.states = u.states) ↔ thr u.trace ≤ B) ∧
+      (thr u.trace ≤ B → f.result = sameResult u.result ∧ f.tracker.consumed = total u.trace) ∧
+      (B < thr u.trace → f.result = .error .outOfFuel ∧ f.trace.length < u.trace.length) ∧
+      f.tracker.consumed + f.tracker.remainingFuel = B := by
+  have hrun := Machine.runFuel_of_run m n (Tracker.new B) s u h
+  have hlen := Machine.run_states_length m n s u h
+  obtain ⟨hge, hlt, hsum, _, _⟩ := threshold_exact u.trace B hB
+  simp only [runFuel, runNoFuel] at hge hlt hsum
+  refine ⟨_, hrun, ?_, rfl, List.take_prefix _ _, ?_, ?_, ?_, hsum⟩
+  · exact executed_prefix _ _
+  · constructor
+    · intro ⟨h1, _⟩
+      by_cases hb : thr u.trace ≤ B
+      · exact hb
+      · have := (hlt (by omega)).2.2
+        have h1' : (runFrom (Tracker.new B) u.trace).executed = u.trace := h1
+        rw [h1'] at this
+        omega
+    · intro hb
+      obtain ⟨_, h2, _⟩ := hge hb
+      simp only [h2, ← hlen, List.take_length, and_self]
+  · intro hb
+    obtain ⟨h1, _, h3⟩ := hge hb
+    simp only [h1, h3, limitedResult, sameResult, and_true]
+    cases u.result <;> rfl
+  · intro hb
+    obtain ⟨h1, _, h3⟩ := hlt hb
+    simp only [h1, limitedResult, h3, and_self]
+
+/-- a machine that counts down and then fails with error 7: the unlimited run dispatches four
+    instructions and ends with that error; budget 2^63 gives the same error, budget 3 out-of-fuel -/
+private def demoCountdown : Machine Nat Nat :=
+  { fetch := fun _ => some "Emit", exec := fun k => if k = 0 then .error 7 else .ok (k - 1) }
+
+example :
+    (demoCountdown.run 10 3).map (·.result) = some (.error 7) ∧
+    (demoCountdown.runFuel 10 (Tracker.new 9223372036854775808) 3).map (·.result) = some (.error (.other 7)) ∧
+    ((demoCountdown.run 10 3).map (fun u => thr u.trace) = some 0 ∨
+      (demoCountdown.runFuel 10 (Tracker.new 0) 3).map (·.result) = some (.error .outOfFuel)) := by
+  refine ⟨rfl, rfl, ?_⟩
+  first
+    | exact Or.inr rfl
+    | exact Or.inl rfl
+
+/-- the property in the words of C13 for an arbitrary machine: one threshold, a function of the
+    unlimited run only; every budget at or above it reproduces the unlimited outcome (final state or
+    the same error), every budget below it gives out-of-fuel -/
+theorem machine_threshold_exact {S E : Type} (m : Machine S E) (n : Nat) (s : S) (u : URun S E)
+    (h : m.run n s = some u) :
+    ∃ T, T = thr u.trace ∧ ∀ B, B < u64Bound →
+      (T ≤ B → (m.runFuel n (Tracker.new B) s).map (·.result) = some (sameResult u.result)) ∧
+      (B < T → (m.runFuel n (Tracker.new B) s).map (·.result) = some (.error .outOfFuel)) := by
+  refine ⟨_, rfl, ?_⟩
+  intro B hB
+  obtain ⟨f, hf, _, _, _, _, hge, hlt, _⟩ := fuel_does_not_steer m n s u h B hB
+  constructor
+  · intro hb; simp [hf, (hge hb).1]
+  · intro hb; simp [hf, (hlt hb).1]
+
+example : ∃ u, (({ fetch := fun k => if k = 0 then none else some "Lookup", exec := fun k => .ok (k - 1) } : Machine Nat Unit).run 5 2) = some u
+    ∧ u.trace = ["Lookup", "Lookup"] := ⟨_, rfl, rfl⟩
+
+/-! ## nested activations: call trees of arbitrary depth -/
+
+/-- Running over the call tree of a render — every nested activation (macro, include, block,
+    `super()`, `render_block`/`call_macro` from Rust) continuing with the caller's tracker and
+    handing it back — is the same as running over the flattened instruction trace, for call trees
+    of any depth.  Hence all trace-level theorems hold for arbitrarily nested renders, and the cost
+    of a render is the sum over all activations. -/
+theorem call_tree_flattens (t : Tracker) (e : Evs) : runTree t e = runFrom t (flatten e) :=
+  runTree_eq_runFrom t e
+
+example : (Evs.call "CallFunction" (.instr "Emit" (.call "Include" (.instr "EmitRaw" .nil) .nil)) (.instr "Emit" .nil)).depth = 2
+    ∧ flatten (Evs.call "CallFunction" (.instr "Emit" (.call "Include" (.instr "EmitRaw" .nil) .nil)) (.instr "Emit" .nil))
+      = ["CallFunction", "Emit", "Include", "EmitRaw", "Emit"] := by decide
+
+/-- threshold exactness for an interpreter whose dispatch starts nested activations sharing the
+    tracker: the threshold is the one of the flattened call tree of the unlimited run -/
+theorem nested_threshold_exact {S E : Type} (m : NMachine S E) (n : Nat) (s : S) (u : NURun S E)
+    (h : m.run n s = some u) (B : Nat) (hB : B < u64Bound) :
+    ∃ f, m.runFuel n (Tracker.new B) s = some f ∧
+      f.executed <+: flatten u.tree ∧
+      (thr (flatten u.tree) ≤ B →
+        f.executed = flatten u.tree ∧ f.result = sameResult u.result ∧ f.tracker.consumed = total (flatten u.tree)) ∧
+      (B < thr (flatten u.tree) → f.result = .error .outOfFuel ∧ f.executed.length < (flatten u.tree).length) ∧
+      f.tracker.consumed + f.tracker.remainingFuel = B := by
+  have hrun := NMachine.runFuel_of_run m n (Tracker.new B) s u h
+  rw [runTree_eq_runFrom] at hrun
+  obtain ⟨hge, hlt, hsum, _, _⟩ := threshold_exact (flatten u.tree) B hB
+  simp only [runFuel, runNoFuel] at hge hlt hsum
+  refine ⟨_, hrun, executed_prefix _ _, ?_, ?_, hsum⟩
+  · intro hb
+    obtain ⟨h1, h2, h3⟩ := hge hb
+    simp only [h1, h2, h3, limitedResult, sameResult, true_and, and_true]
+    cases u.result <;> rfl
+  · intro hb
+    obtain ⟨h1, _, h3⟩ := hlt hb
+    simp only [h1, limitedResult, h3, and_self]
+
+/-- a macro-like machine: state = (pc, depth); at pc 1 of depth 0 it calls a nested activation -/
+private def demoMacro : NMachine (Nat × Nat) Unit :=
+  { fetch := fun s => if s.1 < 3 then some (if s.1 = 1 ∧ s.2 = 0 then "CallFunction" else "Emit") else none,
+    exec := fun s => if s.1 = 1 ∧ s.2 = 0 then .call (0, 1) (fun _ => (2, 0)) else .step (.ok (s.1 + 1, s.2)) }
+
+example : (demoMacro.run 20 (0, 0)).map (fun u => flatten u.tree)
+    = some ["Emit", "CallFunction", "Emit", "Emit", "Emit", "Emit"] := by decide
+
+/-! ## swallowed out-of-fuel errors -/
+
+/-- OUT OF FUEL IS STICKY.  Once `track` has reported out-of-fuel the tank is empty and stays
+    empty; from an empty tank every charged instruction is refused again.  So when a Rust callback
+    swallows the error of a nested evaluation (`state.call_macro(..).unwrap_or_default()`), whatever
+    the render does afterwards (`rest`, not necessarily what the unlimited run did) ends out of fuel
+    at its first charged instruction: only free instructions can still run, nothing more is
+    consumed, and the levels still add up. -/
+theorem out_of_fuel_is_sticky (t : Tracker) (nested rest : List String)
+    (h : (runFrom t nested).status = .outOfFuel) :
+    (runFrom t nested).tracker.remaining = 0 ∧
+    (∀ c, c ≠ 0 → (runFrom t nested).tracker.track c = .outOfFuel (runFrom t nested).tracker) ∧
+    (total rest ≠ 0 →
+      (runFrom (runFrom t nested).tracker rest).status = .outOfFuel ∧
+      (runFrom (runFrom t nested).tracker rest).tracker = (runFrom t nested).tracker ∧
+      total (runFrom (runFrom t nested).tracker rest).executed = 0) := by
+  have h0 := runFrom_oof_remaining t nested h
+  exact ⟨h0, fun c hc => track_empty _ c hc h0, fun hr => runFrom_empty _ rest h0 hr⟩
+
+example : (runFrom (Tracker.new 1) ["Emit"]).status = .outOfFuel ∨ total ["Emit"] = 0 := by decide
+
+/-- in particular a budget of 0 refuses the first charged instruction -/
+theorem zero_budget_refuses (trace : List String) (h : total trace ≠ 0) :
+    (runFuel 0 trace).status = .outOfFuel ∧ total (runFuel 0 trace).executed = 0 := by
+  have := runFrom_empty (Tracker.new 0) trace rfl h
+  exact ⟨this.1, this.2.2⟩
+
+example : total ["PushLoop", "Iterate"] ≠ 0 ∨ total ["PushLoop", "Iterate"] = 0 := by decide
+
+/-! ## source ties for the hypotheses of the machine model -/
+
+/-- WHO TOUCHES THE TRACKER.  Every occurrence of `fuel_tracker`, `FuelTracker`, `fuel_levels`,
+    `.track(`, `.remaining()`, `.consumed()`, `.fuel()`, `set_fuel`, `self.fuel` and `State::new(`
+    in `minijinja/src/**` and `minijinja-contrib/src/**` outside `vm/fuel.rs` (regenerated from the
+    sources on every run) is one of the modelled ones:
+    * the budget is configuration of the `Environment` (`set_fuel` / `fuel`);
+    * `State::new` creates the one tracker of a render from `env.fuel()`; states are only created
+      by `Executor::eval` (a render), `Template::new_state` and `Environment::empty_state`
+      (stand-alone states for API users) — never for a nested evaluation;
+    * `eval_impl` borrows it mutably and calls `track` (nothing else, once);
+    * `State::fuel_levels` reads `consumed()` / `remaining()`.
+    In particular no dispatch code, filter, test or function reads or writes it, nothing copies,
+    replaces or restores it: the `fetch`/`exec` functions of the machine model do not depend on it. -/
+theorem uses_as_modelled :
+    MJ.Gen.fuelUses = [
+      ("environment.rs", "fn empty_state", "State::new"),
+      ("environment.rs", "fn fuel", "self.fuel"),
+      ("environment.rs", "fn set_fuel", "self.fuel:assign"),
+      ("environment.rs", "impl Environment", "set_fuel:mut:def"),
+      ("template.rs", "fn new_state", "State::new"),
+      ("vm/mod.rs", "fn eval", "State::new:mut"),
+      ("vm/mod.rs", "fn eval_impl", "fuel_tracker:mut"),
+      ("vm/mod.rs", "fn eval_impl", "track()"),
+      ("vm/state.rs", "<top>", "FuelTracker:import"),
+      ("vm/state.rs", "fn fuel_levels", "fuel_tracker"),
+      ("vm/state.rs", "fn fuel_levels", "remaining()+consumed()"),
+      ("vm/state.rs", "fn new", "fuel_tracker+FuelTracker+env.fuel()"),
+      ("vm/state.rs", "fn new_for_env", "State::new"),
+      ("vm/state.rs", "impl State", "fuel_levels:def"),
+      ("vm/state.rs", "struct State", "fuel_tracker+FuelTracker")] := by decide
+
+/-- WHERE IT IS CHARGED.  In `eval_impl` the landmarks appear exactly once each and in this order:
+    the `loop`, the instruction fetch, (the verification hook,) the mutable borrow of the tracker,
+    `ctx_ok!(tracker.track(instr))` — an error aborts the activation — and only then the
+    `match instr` dispatch; `track` is called nowhere else in `vm/mod.rs`.  This is the shape of
+    `Machine.runFuel` / `NMachine.runFuel`. -/
+theorem track_before_dispatch :
+    MJ.Gen.fuelTrackSite = ["loop", "fetch", "hook", "borrow", "track-or-abort", "dispatch"] := by decide
 
 /-- what was wrong before the repair (`remaining: fuel as isize`, checked `-=`, `<= 0`), for an
     instruction of cost 1: the largest budget failed on the first charge and `2^63` panicked while
